@@ -20,6 +20,7 @@ func gen(t *rapid.T) peng.Case {
 	c := peng.GenProgram(t, peng.Bias{MinN: 1, MaxN: 4, MaxThreads: 4, MinOps: 10, MaxOps: 120, MaxMgrs: 1, Kinds: scen.AllKinds, Barriers: true,
 		Cancel: true, MaxSleepUs: 1500, SlowQFUs: 500, StreamItems: 4, AwaitProb: 3, ErrorNodes: true, FullQuorum: true, ReleaseModes: []string{"", "early"}})
 	c.Probe = true // the fence: an RPC to every node after everything has answered
+	c.Jitter = peng.GenJitter(t)
 	return c
 }
 
